@@ -154,6 +154,9 @@ def c07(run):
     rt_random(run, "rand_multi", "hdr", 250 if quick else 15000)
     rt_family(run, "prio_2x2", "prio", 2, 2)
     rt_random(run, "rand_hostile", "hostile", 500 if quick else 50000)
+    # histories with REJECTED registrations (ill-formed routes, duplicates, a second match-all as optional last segment ...):
+    # the outcome of a request is a function of the routes that were registered - a rejected one leaves nothing behind
+    rt_random(run, "rand_reg", "reg", 300 if quick else 20000)
     return run.finish(rule=RT_RULE + " C07: hostile byte paths / unknown methods, each request issued twice; every Serve event must show "
                       "no panic and exactly one chain (counted by the first application middleware).", extra_assumptions=RT_ASSUME)
 
